@@ -133,4 +133,201 @@ theorem spec2_predBuiltin (cfg : CheckCfg) (c : SCfg) (cs : List OTy) (m mc : Me
       · simp only [hbool] at hrule
         simp at hrule
 
+/-! ### the extended fragment -/
+
+/-- literals, identifiers, `#`, the operators of the scalar fragment, `in` / `not in` / `..`, indexing,
+`len`, and `all none any one count` with their closures.  (`filter` and `map` are left out: their static
+result type `[]T` is not the `[]interface{}` the VM builds — known finding; so are slicing, members and
+calls.) -/
+def inFrag2 : Node → Bool
+  | .bool _ _ | .str _ _ | .int _ _ | .float _ _ | .ident _ _ _ | .pointer _ => true
+  | .unary _ op x => fragUnary op && inFrag2 x
+  | .binary _ op l r => (fragBinary op || op == "in" || op == "not in" || op == "..") && inFrag2 l && inFrag2 r
+  | .cond _ c a b => inFrag2 c && inFrag2 a && inFrag2 b
+  | .index _ x i => inFrag2 x && inFrag2 i
+  | .builtin _ name [a] => name == "len" && inFrag2 a
+  | .builtin _ name [a, .closure _ b] => isPredBuiltin name && inFrag2 a && inFrag2 b
+  | _ => false
+
+def sliceOK (t : Option OTy) : Bool :=
+  match t with
+  | some τ => (sliceElemKind τ).isSome
+  | none => false
+
+def vtyOK (t : Option OTy) : Bool :=
+  match t with
+  | some τ => (vtyOf τ).isSome
+  | none => false
+
+/-- an integer of scalar type (excludes the loose index rule: a string index on a slice) -/
+def intOK (t : Option OTy) : Bool :=
+  match t with
+  | some τ => τ.kind.isScalar && isIntegerT τ
+  | none => false
+
+def lenOK (t : Option OTy) : Bool :=
+  match t with
+  | some τ => τ.kind == .string || (sliceElemKind τ).isSome
+  | none => false
+
+/-- "all its operands are statically typed", for the extended fragment: every operand of a scalar operator
+has a scalar type, collections are slices of scalars, indices are integers, closure bodies are scalar -/
+def typed2 (cfg : CheckCfg) : List OTy → Node → Bool
+  | cs, .unary m op x => scalarOK (synth cfg cs (.unary m op x)) && scalarOK (synth cfg cs x) && typed2 cfg cs x
+  | cs, .binary m op l r =>
+    (if fragBinary op then
+        scalarOK (synth cfg cs (.binary m op l r)) && scalarOK (synth cfg cs l) && scalarOK (synth cfg cs r)
+     else if op == "in" || op == "not in" then vtyOK (synth cfg cs l) && sliceOK (synth cfg cs r)
+     else scalarOK (synth cfg cs l) && scalarOK (synth cfg cs r)) &&
+    typed2 cfg cs l && typed2 cfg cs r
+  | cs, .cond m c a b =>
+    scalarOK (synth cfg cs (.cond m c a b)) && scalarOK (synth cfg cs c) && scalarOK (synth cfg cs a) &&
+      scalarOK (synth cfg cs b) && typed2 cfg cs c && typed2 cfg cs a && typed2 cfg cs b
+  | cs, .index _ x i =>
+    sliceOK (synth cfg cs x) && intOK (synth cfg cs i) && typed2 cfg cs x && typed2 cfg cs i
+  | cs, .builtin _ _ [a] => lenOK (synth cfg cs a) && typed2 cfg cs a
+  | cs, .builtin _ _ [a, .closure _ b] =>
+    sliceOK (synth cfg cs a) && typed2 cfg cs a &&
+    (match synth cfg cs a with
+      | some coll => scalarOK (synth cfg (coll :: cs) b) && typed2 cfg (coll :: cs) b
+      | none => false)
+  | _, _ => true
+
+theorem envConforms_of2 {cfg : CheckCfg} {env : Val} (h : EnvConforms2 cfg env) : EnvConforms cfg env := by
+  intro name ns τ hr hs
+  obtain ⟨v, hv, hk⟩ := h name ns τ (.sc τ.kind) hr (vtyOf_scalar hs)
+  exact ⟨v, hv, hk⟩
+
+/-- **Soundness on the extended fragment**, by recursion over the tree. -/
+theorem frag2_sound (hd : E .divzero) (hi : E .index) (hbud : E .budget) (cfg : CheckCfg) (c : SCfg)
+    (henv : EnvConforms2 cfg c.env) :
+    ∀ (n : Node) (cs : List OTy), inFrag2 n = true → typed2 cfg cs n = true → Spec2 E cfg c cs n
+  | .bool m b, cs, _, _ =>
+    frag_to_spec2 (frag_sound hd cfg cs c (envConforms_of2 henv) (.bool m b) rfl rfl)
+      (fun τ h => by simp only [synth, Option.some.injEq] at h; subst h; rfl)
+  | .str m x, cs, _, _ =>
+    frag_to_spec2 (frag_sound hd cfg cs c (envConforms_of2 henv) (.str m x) rfl rfl)
+      (fun τ h => by simp only [synth, Option.some.injEq] at h; subst h; rfl)
+  | .int m v, cs, _, _ =>
+    frag_to_spec2 (frag_sound hd cfg cs c (envConforms_of2 henv) (.int m v) rfl rfl)
+      (fun τ h => by simp only [synth, Option.some.injEq] at h; subst h; rfl)
+  | .float m x, cs, _, _ =>
+    frag_to_spec2 (frag_sound hd cfg cs c (envConforms_of2 henv) (.float m x) rfl rfl)
+      (fun τ h => by simp only [synth, Option.some.injEq] at h; subst h; rfl)
+  | .ident m name ns, cs, _, _ => spec2_ident cfg c cs henv m name ns
+  | .pointer m, cs, _, _ => spec2_pointer hi cfg c cs m
+  | .unary m op x, cs, hf, ht => by
+    simp only [inFrag2, Bool.and_eq_true] at hf
+    simp only [typed2, Bool.and_eq_true] at ht
+    have ihx := frag2_sound hd hi hbud cfg c henv x cs hf.2 ht.2
+    refine frag_to_spec2 (frag_unary cfg cs c m op x hf.1 ht.1.1 ht.1.2 (spec2_to_frag ihx)) ?_
+    intro τ h
+    have := ht.1.1
+    rw [h] at this; exact this
+  | .cond m cn a b, cs, hf, ht => by
+    simp only [inFrag2, Bool.and_eq_true] at hf
+    simp only [typed2, Bool.and_eq_true] at ht
+    obtain ⟨⟨⟨⟨⟨⟨h0, h1⟩, h2⟩, h3⟩, t1⟩, t2⟩, t3⟩ := ht
+    have ih1 := frag2_sound hd hi hbud cfg c henv cn cs hf.1.1 t1
+    have ih2 := frag2_sound hd hi hbud cfg c henv a cs hf.1.2 t2
+    have ih3 := frag2_sound hd hi hbud cfg c henv b cs hf.2 t3
+    refine frag_to_spec2 (frag_cond cfg cs c m cn a b h0 h1 h2 h3 (spec2_to_frag ih1) (spec2_to_frag ih2)
+      (spec2_to_frag ih3)) ?_
+    intro τ h
+    rw [h] at h0; exact h0
+  | .binary m op l r, cs, hf, ht => by
+    simp only [inFrag2, Bool.and_eq_true] at hf
+    simp only [typed2, Bool.and_eq_true] at ht
+    obtain ⟨⟨hop, hfl⟩, hfr⟩ := hf
+    obtain ⟨⟨hcls, htl⟩, htr⟩ := ht
+    have ihl := frag2_sound hd hi hbud cfg c henv l cs hfl htl
+    have ihr := frag2_sound hd hi hbud cfg c henv r cs hfr htr
+    by_cases hfb : fragBinary op = true
+    · simp only [hfb, if_true, Bool.and_eq_true] at hcls
+      refine frag_to_spec2 (frag_binary hd cfg cs c m op l r hfb hcls.1.2 hcls.2 (spec2_to_frag ihl)
+        (spec2_to_frag ihr)) ?_
+      intro τ h
+      have := hcls.1.1
+      rw [h] at this; exact this
+    · simp only [hfb, Bool.false_eq_true, if_false, Bool.false_or] at hcls hop
+      by_cases hin : (op == "in" || op == "not in") = true
+      · simp only [hin, if_true, Bool.and_eq_true] at hcls
+        have hop' : op = "in" ∨ op = "not in" := by simpa using hin
+        refine spec2_in cfg c cs m op l r hop' ihl ihr ?_ ?_
+        · intro t h
+          have := hcls.1; rw [h] at this
+          simp only [vtyOK, Option.isSome_iff_exists] at this
+          exact this
+        · intro t h
+          have := hcls.2; rw [h] at this
+          simp only [sliceOK, Option.isSome_iff_exists] at this
+          exact this
+      · simp only [hin, Bool.false_eq_true, if_false, Bool.and_eq_true] at hcls
+        have hop' : op = ".." := by
+          simp only [Bool.or_eq_true, beq_iff_eq] at hop hin
+          rcases hop with (h | h) | h
+          · exact absurd (Or.inl h) hin
+          · exact absurd (Or.inr h) hin
+          · exact h
+        subst hop'
+        refine spec2_range hbud cfg c cs m l r ihl ihr ?_ ?_
+        · intro t h
+          have := hcls.1; rw [h] at this; exact this
+        · intro t h
+          have := hcls.2; rw [h] at this; exact this
+  | .index m x i, cs, hf, ht => by
+    simp only [inFrag2, Bool.and_eq_true] at hf
+    simp only [typed2, Bool.and_eq_true] at ht
+    obtain ⟨⟨⟨hsx, hsi⟩, htx⟩, hti⟩ := ht
+    refine spec2_index hi cfg c cs m x i (frag2_sound hd hi hbud cfg c henv x cs hf.1 htx)
+      (frag2_sound hd hi hbud cfg c henv i cs hf.2 hti) ?_ ?_
+    · intro t h
+      rw [h] at hsx
+      simp only [sliceOK, Option.isSome_iff_exists] at hsx
+      exact hsx
+    · intro it h
+      rw [h] at hsi
+      simp only [intOK, Bool.and_eq_true] at hsi
+      exact ⟨hsi.1, hsi.2⟩
+  | .builtin m name [a], cs, hf, ht => by
+    simp only [inFrag2, Bool.and_eq_true, beq_iff_eq] at hf
+    simp only [typed2, Bool.and_eq_true] at ht
+    obtain ⟨rfl, hfa⟩ := hf
+    refine spec2_len cfg c cs m a (frag2_sound hd hi hbud cfg c henv a cs hfa ht.2) ?_
+    intro t h
+    have hl := ht.1
+    rw [h] at hl
+    simp only [lenOK, Bool.or_eq_true, beq_iff_eq, Option.isSome_iff_exists] at hl
+    rcases hl with hstr | ⟨k, hk⟩
+    · have hsc : ScalarT t := by unfold ScalarT; rw [hstr]; rfl
+      exact ⟨.sc t.kind, vtyOf_scalar hsc, Or.inl (by rw [hstr])⟩
+    · exact ⟨.sl k, vtyOf_slice_of hk, Or.inr ⟨k, rfl⟩⟩
+  | .builtin m name [a, .closure mc b], cs, hf, ht => by
+    simp only [inFrag2, Bool.and_eq_true] at hf
+    simp only [typed2, Bool.and_eq_true] at ht
+    obtain ⟨⟨hname, hfa⟩, hfb⟩ := hf
+    obtain ⟨⟨hsa, hta⟩, hbody⟩ := ht
+    refine spec2_predBuiltin cfg c cs m mc name a b hname (frag2_sound hd hi hbud cfg c henv a cs hfa hta) ?_ ?_ ?_
+    · intro coll hc
+      rw [hc] at hbody
+      simp only [Bool.and_eq_true] at hbody
+      exact frag2_sound hd hi hbud cfg c henv b (coll :: cs) hfb hbody.2
+    · intro t h
+      rw [h] at hsa
+      simp only [sliceOK, Option.isSome_iff_exists] at hsa
+      exact hsa
+    · intro coll bt hc hb'
+      rw [hc] at hbody
+      simp only [Bool.and_eq_true] at hbody
+      have := hbody.1
+      rw [hb'] at this
+      exact this
+  | .nil _, _, hf, _ | .const _ _, _, hf, _ | .matches _ _ _ _, _, hf, _ | .prop _ _ _ _, _, hf, _
+  | .slice _ _ _ _, _, hf, _ | .method _ _ _ _ _, _, hf, _ | .func _ _ _ _, _, hf, _
+  | .closure _ _, _, hf, _ | .array _ _, _, hf, _ | .map _ _, _, hf, _ | .pair _ _ _, _, hf, _ => by
+    simp [inFrag2] at hf
+  | .builtin _ _ [], _, hf, _ => by simp [inFrag2] at hf
+  | .builtin _ _ (_ :: _ :: _ :: _), _, hf, _ => by simp [inFrag2] at hf
+  | .builtin _ _ [_, .nil _], _, hf, _ => by simp [inFrag2] at hf
+
 end ExprModel
